@@ -102,9 +102,21 @@ type FuncContract struct {
 	Token        *Expr
 	Defines      *Expr
 	Measure      *Measure
+	Depth        *DepthClause
 	MayPanic     string
 	CallsOnly    []string
 	HasCallsOnly bool
+}
+
+// DepthClause: well-founded measure of a group of mutually recursive functions.  At every call from one
+// member to another, (measure, rank) decreases lexicographically: the callee's measure (over its arguments, in the
+// state of the call) is smaller than the caller's at its entry, or equal with a smaller rank.
+type DepthClause struct {
+	Label string
+	Props []string
+	Rank  int
+	Expr  *Expr
+	Src   string
 }
 
 type Measure struct {
@@ -357,6 +369,34 @@ func (fc *FuncContract) addClause(word, rest string, ln int) error {
 			}
 		}
 		fc.Measure = me
+	case "depth":
+		// depth [tags:label] rank N measure <expr>
+		dc := &DepthClause{Src: rest}
+		if strings.HasPrefix(rest, "[") {
+			j := strings.Index(rest, "]")
+			tag := rest[1:j]
+			rest = strings.TrimSpace(rest[j+1:])
+			k := strings.LastIndex(tag, ":")
+			for _, p := range strings.Split(tag[:k], ",") {
+				dc.Props = append(dc.Props, strings.TrimSpace(p))
+			}
+			dc.Label = strings.TrimSpace(tag[k+1:])
+		}
+		f := strings.Fields(rest)
+		if len(f) < 4 || f[0] != "rank" || f[2] != "measure" {
+			return fmt.Errorf("depth [tags:label] rank N measure <expr>")
+		}
+		n, err := strconv.Atoi(f[1])
+		if err != nil {
+			return err
+		}
+		dc.Rank = n
+		e, err := parseExpr(strings.TrimSpace(rest[strings.Index(rest, "measure")+len("measure"):]))
+		if err != nil {
+			return err
+		}
+		dc.Expr = e
+		fc.Depth = dc
 	case "maypanic":
 		fc.MayPanic = rest
 		if fc.MayPanic == "" {
